@@ -3,7 +3,8 @@ R1 loop invariant of bisect (complementary element-wise updates from one midpoin
 detection and terminating recursion on (-fn, -target); R3 bounded loop; R4 wiring of find_implied_volatility and the modules;
 R5 the European price is increasing in volatility.
 Added after the seeded-defect rounds: R1 also: no extra exit of the search loop except an exact hit; R4 also: the direction of the pricer in the volatility is a live decision on the implied-volatility path.
-Third round: R4 also: a module created from a derivative resolves in implied_volatility() what price() resolves; R8 the inverted function and the bracket are computed in the dtype of the inputs."""
+Third round: R4 also: a module created from a derivative resolves in implied_volatility() what price() resolves; R8 the inverted function and the bracket are computed in the dtype of the inputs.
+Rounds 4-5: R8 also: find_implied_volatility hands bisect a bracket in the dtype of the price."""
 import ast
 
 import sympy as sp
